@@ -329,16 +329,21 @@ pub fn gen_input(g: &mut G, s: &MState, pending: &mut Vec<(u128, MTimer)>, base_
     } else if r < 93 {
         Input::ReuseDown
     } else if r < 95 {
+        // one to three simultaneous changes (so that a refused config may also differ in accepted fields)
         let mut c = s.cfg.clone();
-        match g.below(8) {
-            0 => c.probe_period += MS,
-            1 => c.periodic_gossip = Some((100 * MS, 1)),
-            2 => c.periodic_gossip = None,
-            3 => c.max_transmissions = 1 + g.below(5) as u128,
-            4 => c.notify_down_members = !c.notify_down_members,
-            5 => c.num_indirect_probes = 1 + g.below(3) as u128,
-            6 => c.max_packet_size = *g.pick(&[30u128, 64, 1400, base_cfg.max_packet_size]),
-            _ => c.periodic_announce = None,
+        for _ in 0..1 + g.below(3) {
+            match g.below(11) {
+                0 => c.probe_period += MS,
+                1 => c.periodic_gossip = Some((100 * MS, 1)),
+                2 => c.periodic_gossip = None,
+                3 => c.max_transmissions = 1 + g.below(5) as u128,
+                4 => c.notify_down_members = !c.notify_down_members,
+                5 => c.num_indirect_probes = 1 + g.below(3) as u128,
+                6 | 7 => c.max_packet_size = *g.pick(&[30u128, 64, 100, 1400, base_cfg.max_packet_size]),
+                8 => c.probe_rtt += MS,
+                9 => c.periodic_announce_down = Some((900 * MS, 2)),
+                _ => c.periodic_announce = None,
+            }
         }
         Input::SetConfig(c)
     } else {
